@@ -105,7 +105,7 @@ EdgeBeyond(r, a, pa, dims, pdims, idx, f, x, e, ci, cj, rule, fill) ==
           IN sgn * (IF bx = x THEN AtFace(r, a, dims, idx, FaceNo(KK(r), B), ij[1], ij[2])
                     ELSE AtFace(r, pa, pdims, pidx, FaceNo(KK(r), B), ij[1], ij[2]))
 
-VFaceVec(r) ==
+VFaceVecN(r, resname) ==
   IF ~TableOK(r) THEN "driver-table-mismatch"
   ELSE IF r.out.k # "array" THEN "raised-on-valid-call"
   ELSE LET a == Arr0(r.args.data)
@@ -132,7 +132,18 @@ VFaceVec(r) ==
        IN IF r.out.dims # odims THEN "dims"
           ELSE IF r.out.shape # a.shape THEN "shape"
           ELSE IF r.out.flat # e.flat THEN "values"
-          ELSE IF r.out.name # "v1" THEN "result-not-named-after-the-input" ELSE "ok"
+          ELSE IF r.out.name # resname THEN "result-not-named-after-the-input" ELSE "ok"
+VFaceVec(r) == VFaceVecN(r, "v1")
+
+\* diff_2d_vector / interp_2d_vector: a dictionary {axis: component} in, a dictionary with the same keys in the
+\* same order out; the entry of an axis is the one-component call along that axis with the other entry as partner
+VVec2D(r) ==
+  IF r.out.k # "array" \/ r.outb.k # "array" THEN "raised-on-valid-call"
+  ELSE IF r.keys # <<r.args.axis[1], r.args.axisb[1]>> THEN "result-keys"
+  ELSE LET va == VFaceVecN(r, "v1")
+           rb == [r EXCEPT !.args = [r.args EXCEPT !.data = r.args.other, !.other = r.args.data, !.axis = r.args.axisb], !.out = r.outb]
+           vb == VFaceVecN(rb, "v2")
+       IN IF va # "ok" THEN "first-" \o va ELSE IF vb # "ok" THEN "second-" \o vb ELSE "ok"
 
 \* on a grid without face connections {axis: u} must behave exactly as u alone (validated by C01's geometry)
 VVecPlain(r) ==
@@ -144,6 +155,7 @@ VVecPlain(r) ==
 Verdict(r) == CASE r.ev = "FaceOp" -> VFaceOp(r)
                 [] r.ev = "FaceVec" -> VFaceVec(r)
                 [] r.ev = "VecPlain" -> VVecPlain(r)
+                [] r.ev = "Vec2D" -> VVec2D(r)
                 [] OTHER -> "unknown-event"
 
 Init == i = 1
